@@ -709,7 +709,7 @@ type c16Case struct {
 
 func (c16) Bounds(tier string) map[string]interface{} {
 	if tier == "thorough" {
-		return map[string]interface{}{"base_tables": 3, "depth": 2}
+		return map[string]interface{}{"base_tables_depth2_all_chains": 2, "base_tables_depth1": 3}
 	}
 	return map[string]interface{}{"base_tables": 2, "depth": 1, "depth2_and_chains_from": "every 24th base schema"}
 }
@@ -723,19 +723,28 @@ type c16Edge struct {
 }
 
 func (c16) Cases(tier string, emit func(string, interface{})) {
-	maxT, depth := 2, 1
-	if tier == "thorough" {
-		maxT, depth = 3, 2
-	}
 	seenState := map[string]bool{}
 	seenEdge := map[string]bool{}
+	if tier == "thorough" {
+		// every base schema of <= 2 tables to depth 2 with all 2-chains, and every base schema of 3 tables
+		// to depth 1 (3 tables to depth 2 are 9.5 million cases, about 5 hours: measured, not affordable)
+		c16Explore(2, 2, 1, 1, seenState, seenEdge, emit)
+		c16Explore(3, 1, 0, 24, seenState, seenEdge, emit)
+		return
+	}
+	c16Explore(2, 1, 24, 24, seenState, seenEdge, emit)
+}
+
+// c16Explore: BFS from every base schema of at most maxT tables to the given depth (depth 2 from every
+// deepEvery-th base schema when deepEvery > 0), 2-chains from every chainEvery-th base schema.
+func c16Explore(maxT, depth, deepEvery, chainEvery int, seenState, seenEdge map[string]bool, emit func(string, interface{})) {
 	type node struct {
 		s     dbSchema
 		depth int
 	}
 	for i, b := range baseSchemas(maxT) {
 		d := depth
-		if tier != "thorough" && i%24 == 0 {
+		if deepEvery > 0 && i%deepEvery == 0 {
 			d = 2
 		}
 		local := map[string]bool{b.canon(): true}
@@ -756,7 +765,7 @@ func (c16) Cases(tier string, emit func(string, interface{})) {
 					seenEdge[k] = true
 					emit("edge", c16Edge{Old: n.s, New: e.To, Kind: e.Kind, Desc: e.Desc})
 					// 2-chains v1 -> v2 -> v3 compared with the direct result
-					if n.depth == 0 && (tier == "thorough" || i%24 == 0) {
+					if n.depth == 0 && i%chainEvery == 0 {
 						for _, e2 := range edits(e.To) {
 							mid := e.To
 							emit("chain", c16Edge{Old: n.s, Mid: &mid, New: e2.To, Kind: e.Kind + "+" + e2.Kind, Desc: e.Desc + "; " + e2.Desc})
